@@ -302,6 +302,13 @@ func cases(thorough bool) []Case {
 		// every allow-list drawn from the configured names (these endpoints start), and each of
 		// them extended by one name that is not configured (these must refuse to start or, if they
 		// start, expose nothing beyond the model)
+		// degenerate allow-lists: blank and padded names are names like any other (not configured)
+		add([]string{""})
+		add([]string{" "})
+		add([]string{"", ""})
+		add([]string{tb[0], ""})
+		add([]string{" " + tb[0] + " "})
+		add([]string{"\t"})
 		for _, l := range subsets(tb) {
 			add(l)
 			for _, extra := range append(append([]string{}, names...), "zz") {
